@@ -261,8 +261,8 @@ def run_check(pid, module, argv):
     # 3. failing-input search when the tie or a proof broke and the oracle saw nothing yet
     search_evals = 0
     if (disagreements or proof_problems) and not ctx.failures and not a.replay:
-        for k in range(3):
-            sctx = Ctx(pid, "thorough" if k else a.tier, a.seed * 1000 + k + 1, search=True)
+        for k in range(2):
+            sctx = Ctx(pid, a.tier, a.seed * 1000 + k + 1, search=True)
             module.run(sctx)
             search_evals += sctx.evaluations
             ctx.failures.extend(sctx.failures)
@@ -313,6 +313,8 @@ def run_check(pid, module, argv):
         "ops_by_kind": dict(collections.Counter(x[3] for x in ctx.ops)),
         "tags": dict(ctx.tags), "skipped": dict(ctx.skipped),
         "known_findings_hit": list(ctx.known_hits.keys()),
+        "failure_kinds": dict(collections.Counter(f["kind"] for f in ctx.failures)),
+        "disagreement_ops": dict(collections.Counter(d["op"] for d in disagreements)),
         "search_extra_cases": search_evals, "exhaustive": bool(ctx.exhaustive),
         "notes": ctx.notes,
     }
@@ -322,6 +324,9 @@ def run_check(pid, module, argv):
     json.dump(evidence, open(ev_path, "w"), indent=1, default=str)
     for l in lines:
         print(l)
+    if ctx.failures or disagreements:
+        print(f"  failure kinds: {dict(collections.Counter(f['kind'] for f in ctx.failures))}; "
+              f"disagreeing ops: {dict(collections.Counter(d['op'] for d in disagreements))}")
     print(f"{pid} tier={a.tier} seed={a.seed}: theorems={len(theorems)}/{obligations - n_examples} examples={n_examples} "
           f"cases={ctx.evaluations} distinct={len(ctx.distinct)} ops={len(ctx.ops)} disagreements={len(disagreements)} "
           f"property_failures={len(ctx.failures)} known={len(ctx.known_hits)} wall={time.time() - t0:.1f}s")
